@@ -7,64 +7,64 @@ HERE = os.path.dirname(os.path.abspath(__file__))
 
 # id -> (technique, level text, level note, DESIGN section)
 T = {
-    "C01": ("explicit-state exploration of conversion chains (depth<=3) from every tz transition + breadth-first search over mixed operation sequences (conversions, elapsed and calendar arithmetic) with de-duplicated implementation states, vs TZif reference model",
+    "C01": ("explicit-state exploration of conversion chains (depth<=3) from every tz transition + breadth-first search over mixed operation sequences (conversions, elapsed and calendar arithmetic) with de-duplicated implementation states, vs TZif reference model; native datetimes on skipped / repeated wall times (both folds) and pendulum values carrying a foreign tzinfo through instance(); targets given as a number of hours (int, float, int subclass, IntEnum); TZ-environment spellings in fresh interpreters",
             "Every zone's every offset transition is probed at -1us/0/+1us/+-1s/+-gap; conversion operations (in_timezone, in_tz, astimezone, from_timestamp, fromtimestamp, instance of 5 tzinfo kinds, and receivers that carry a foreign tzinfo) are applied as sequences up to depth 3 and every reached state is compared with an independent TZif/POSIX-footer reference; states reached by different routes for one (instant, zone) must be observationally equal.",
             "Trusts: reference TZif reader (validated against stdlib zoneinfo on every run), the two tz databases on this image. Bound: neighbourhoods of transitions + 37-year grid, witness target zones in quick, all ordered pairs in thorough."),
-    "C02": ("exhaustive enumeration of skipped/repeated/ordinary wall times of every zone x fold x raise flag x entry point, vs solve() reference",
+    "C02": ("exhaustive enumeration of skipped/repeated/ordinary wall times of every zone x fold x raise flag x entry point, vs solve() reference; truthy non-bool flags; raw-constructed receivers handed the values they already show",
             "All gaps and overlaps of all zones are enumerated from the tz data; each wall time is built through every wall-clock entry point with both folds and both raise flags and compared with a reference that enumerates the UTC instants rendering to that wall time.",
             "Trusts the TZif reference reader. Bound: 5 wall times per transition (edges, middle) + ordinary walls."),
-    "C03": ("exhaustive enumeration: transition-neighbourhood states x carry-critical amount alphabet x {add, subtract, +td, -td, td+dt, Duration+dt} and inverse (depth 2); calendar-edge receivers (29 February of every kind of year) under both helper back ends + breadth-first search over depth-3 operation sequences (receivers produced by earlier conversions/arithmetic)",
+    "C03": ("exhaustive enumeration: transition-neighbourhood states x carry-critical amount alphabet x {add, subtract, +td, -td, td+dt, Duration+dt} and inverse (depth 2); calendar-edge receivers (29 February of every kind of year) under both helper back ends + breadth-first search over depth-3 operation sequences (receivers produced by earlier conversions/arithmetic); dyadic float / bool amounts, timedelta subclasses, century-long timedeltas, receivers used by other operations before",
             "From every probe state around every transition of every zone, fixed-length amounts from a carry-critical alphabet are added and then subtracted; instants are compared as integer microseconds with the reference rendering.",
             "Trusts the TZif reference reader. Bound: amount alphabet (|total| <= 1e9 s), neighbourhood probes."),
-    "C04": ("exhaustive enumeration: calendar-edge dates x (years, months, weeks, days, time) alphabet x {add, subtract, +Duration, -Duration, +(-d), Duration+dt, Durations derived by arithmetic} vs integer reference with clamp + C02 normalisation; DST-target starts with both raw fold flags; breadth-first search over depth-3 operation sequences",
+    "C04": ("exhaustive enumeration: calendar-edge dates x (years, months, weeks, days, time) alphabet x {add, subtract, +Duration, -Duration, +(-d), Duration+dt, Durations derived by arithmetic} vs integer reference with clamp + C02 normalisation; DST-target starts with both raw fold flags; breadth-first search over depth-3 operation sequences; fractional days on elapsed-clock receivers; receivers and Interval operands used by other operations before (reference from a fresh twin)",
             "Month-end/leap/year-boundary starts x signed amount alphabet; results compared with an integer calendar model; the three spellings of subtraction must agree.",
             "Bound: amount alphabet and start-date set listed in the evidence; zones = witness set."),
-    "C05": ("exhaustive enumeration of ordered endpoint pairs (all zones' transition neighbourhoods, both folds, tz-identity variants) vs integer instant difference",
+    "C05": ("exhaustive enumeration of ordered endpoint pairs (all zones' transition neighbourhoods, both folds, tz-identity variants) vs integer instant difference; subclass and sibling-subclass operands, native naive operands, abs()-then-negate sequences on one Interval object",
             "All ordered pairs among probe states around transitions (same tzinfo object / equal name / different zones), through -, diff, interval, abs, absolute=True, in_*; compared with the integer microsecond difference of the instants.",
             "Bound: pairs within a zone's transition probes + cross-zone witness pairs + far-apart straddlers."),
-    "C06": ("exhaustive enumeration of (start,end) date pairs over leap-cycle windows x time-of-day borrow patterns (incl. differently named zones sharing an offset, native operands); decomposition checker + Rust/Python differential",
+    "C06": ("exhaustive enumeration of (start,end) date pairs over leap-cycle windows x time-of-day borrow patterns (incl. differently named zones sharing an offset, native operands); decomposition checker + Rust/Python differential; reflected addition and helper / class / diff / operator routes of one pair; negation, equality and hash after abs()",
             "Every date pair in the windows (span <= 800 days) x borrow pattern is decomposed by both precise_diff back ends and by Interval; ranges, rebuild, negation, in_months and back-end agreement are checked.",
             "Bound: year windows listed in the evidence; zones: UTC, fixed, naive, Date, witness zones without net offset change."),
     "C07": ("exhaustive enumeration: every date of the year set rendered in 6 ISO forms x time/fraction/offset products, parsed by both back ends (constructive oracle)",
             "Strings are rendered from values by an independent renderer; parse() under both back ends must return the value rendered; impossible dates must raise ValueError; isoformat/str/to_*_string round trips.",
             "Bound: quick = 30 full years, thorough = every date 1583..9999; all 2879 minute offsets."),
-    "C08": ("exhaustive enumeration: DateTime grid x every token / token pair / format grammar x 27 locales; from_format inversion (depth 2) incl. every hour of the day and the X/x/YY/E/d/DDDD/Q tokens; named helpers under other default locales",
+    "C08": ("exhaustive enumeration: DateTime grid x every token / token pair / format grammar x 27 locales; from_format inversion (depth 2) incl. every hour of the day and the X/x/YY/E/d/DDDD/Q tokens; named helpers under other default locales; non-matching strings (meridiem hour, trailing newline, impossible day-of-year, dotted names altered); names written last / against their neighbours in every locale; now-in-the-requested-zone; rejected set_locale()",
             "Each documented token is rendered for every grid value and compared with an integer/strftime/locale-data renderer; formats generated by a small grammar are inverted with from_format.",
             "Bound: value grid and grammar listed in the evidence; whole-minute offsets."),
-    "C09": ("exhaustive enumeration of constructor argument tuples from a boundary alphabet (<=4/5 non-zero of 9 components) vs integer model",
+    "C09": ("exhaustive enumeration of constructor argument tuples from a boundary alphabet (<=4/5 non-zero of 9 components) vs integer model; integer clauses on lengths up to timedelta.max; AbsoluteDurations of a day and more and their copies; rebuilds after the value was worded",
             "Every tuple of the alphabet is normalised by Duration and by an integer reference; native slots, component ranges/signs, rebuild and total_*/in_* consistency are compared.",
             "Bound: alphabet per component, |total| < 2^53 us."),
-    "C10": ("exhaustive enumeration: operand pairs (40 values x Duration|timedelta) x all operators x numbers, vs native timedelta",
+    "C10": ("exhaustive enumeration: operand pairs (40 values x Duration|timedelta) x all operators x numbers, vs native timedelta; Interval and AbsoluteDuration as left operands and divisors, hash of Intervals, one operand object reused across the additive and the scaling operator families",
             "Every operator on every operand pair is executed on Durations and on native timedeltas; value and result type are compared.",
             "Bound: operand alphabet listed in the evidence."),
-    "C11": ("exhaustive enumeration: states x accessors, alternative constructors, replace() argument forms, formatting mixin and all ordered pairs x comparison/hash/subtraction vs native twins",
+    "C11": ("exhaustive enumeration: states x accessors, alternative constructors, replace() argument forms, formatting mixin and all ordered pairs x comparison/hash/subtraction vs native twins; instance(tz=None), fromtimestamp carries, combine(..., None), Duration operands shared by all states, operands that look like timedeltas but implement the reflected operators themselves",
             "Each pendulum value and its native twin answer every stdlib accessor; all ordered pairs go through the six comparisons, hash and subtraction.",
             "Bound: state set from transition neighbourhoods of witness zones, calendar samples for Date, grid for Time."),
-    "C12": ("explicit-state exploration: every (instant, zone) state reached by 3 routes x 9 units x start_of/end_of applied twice, 7 week configurations",
+    "C12": ("explicit-state exploration: every (instant, zone) state reached by 3 routes x 9 units x start_of/end_of applied twice, 7 week configurations; parsed routes (incl. text with its own offset under a tz option); the first route's receiver asked again from the largest unit down; rejected week setters in every configuration",
             "For each model state several implementation states (constructed with fold 0/1, converted, parsed) are explored; the stated clauses (same unit, s<=x<=e, neighbours outside, tz kept, idempotent, route independence, termination) are checked against calref/tzref.",
             "Bound: transition neighbourhoods of every zone +-5h/7h and a 37-year grid."),
-    "C13": ("exhaustive enumeration of ISO duration strings (designator subsets x value alphabet x fraction strings of length<=3 + long ones) in both back ends vs Fraction model",
+    "C13": ("exhaustive enumeration of ISO duration strings (designator subsets x value alphabet x fraction strings of length<=3 + long ones) in both back ends vs Fraction model; doubled designators; every quarter-hour explicit offset in ascending / descending / ascending order within one process; reported components vs value",
             "Strings are generated from a grammar; parse results from both back ends are compared with exact rational arithmetic rounded half-even; malformed orders must raise ValueError; interval forms compared with arithref.",
             "Bound: value alphabet, fraction lengths listed in the evidence."),
-    "C14": ("exhaustive enumeration: value seeds (every overlap of every zone, component subsets, all zones/offsets) x pickle protocols 0..5 x copy x deepcopy, depth 2",
+    "C14": ("exhaustive enumeration: value seeds (every overlap of every zone, component subsets, all zones/offsets) x pickle protocols 0..5 x copy x deepcopy, depth 2; every value copied again after a type-specific battery of read-only uses; lengths up to timedelta.max",
             "Each seed is serialised/copied by every route (and a copy of a copy); type, accessor tuple, instant and == are compared with the original.",
             "Bound: seed sets listed in the evidence."),
-    "C15": ("exhaustive enumeration of all years 1..9999 and all 3,652,059 dates in both back ends vs stdlib",
+    "C15": ("exhaustive enumeration of all years 1..9999 and all 3,652,059 dates in both back ends vs stdlib; the public helpers.local_time wrapper; enumeration and oracles independent of the stdlib calendar module's mutable state",
             "All years and all dates are enumerated completely for the calendar primitives in both back ends; local_time at every (quick: every 5th) day boundary +-1 s x offsets and whole-day sweeps; getters on all (quick: a stated sub-lattice of) dates.",
             "Trusts stdlib datetime/calendar (named by the property) and the closed-form calref, cross-checked against each other at run time."),
-    "C16": ("exhaustive enumeration: every date of a 28-year cycle x 7 weekdays x n ranges x units; anomalous-midnight zones; vs calref date arithmetic",
+    "C16": ("exhaustive enumeration: every date of a 28-year cycle x 7 weekdays x n ranges x units; anomalous-midnight zones; vs calref date arithmetic; pendulum fixed-offset receivers; truthy non-bool keep_time",
             "Every month/quarter/year shape x weekday x n is navigated on Date and DateTime and compared with integer date arithmetic; termination enforced by a horizon.",
             "Bound: 28-year cycle + century years; zones = witness set + all skipped/repeated midnights."),
-    "C17": ("exhaustive enumeration of all strings of length <=4 (thorough <=6) over a 26-symbol alphabet + all single (thorough: double) edits of valid templates x options, both back ends; range-boundary date strings of every year type with the calendar as oracle",
+    "C17": ("exhaustive enumeration of all strings of length <=4 (thorough <=6) over a 26-symbol alphabet + all single (thorough: double) edits of valid templates x options, both back ends; range-boundary date strings of every year type with the calendar as oracle; numeric tz= for every whole-minute offset; 24:00 notation on impossible dates; characters that are not fraction / date-time separators",
             "Every string of the bounded language is parsed under both back ends; the outcome must be a supported type or ValueError, accepted values must agree across back ends and not stem from wrapped numbers.",
             "Bound: string length / edit distance / template set listed in the evidence."),
-    "C18": ("exhaustive enumeration: 27 locales x units x counts 0..1000 x {now,other} x {past,future} x absolute; locale tokens; call-order histories (depth<=3) on a cold locale cache; per-locale direction-marker consistency; Interval.in_words over all instant pairs",
+    "C18": ("exhaustive enumeration: 27 locales x units x counts 0..1000 x {now,other} x {past,future} x absolute; locale tokens; call-order histories (depth<=3) on a cold locale cache; per-locale direction-marker consistency; Interval.in_words over all instant pairs; format_diff of every spelling of one Interval; float-built durations; locale tables compared with each locale loaded alone in a fresh interpreter; now-relative Time differences under a local-zone override",
             "Every locale/unit/count/flag combination is formatted; totality, placeholder substitution, direction marker (from the locale's own data) and magnitude are checked; all orderings of <=3 calls must return what each returns alone.",
             "Bound: counts 0..1000, 40-point instant set."),
-    "C19": ("exhaustive enumeration: interval seeds x 8 units x steps 1..12 x {forward, inverted, absolute}; sequence compared with independently computed start.add(k*n)",
+    "C19": ("exhaustive enumeration: interval seeds x 8 units x steps 1..12 x {forward, inverted, absolute}; sequence compared with independently computed start.add(k*n); keyword and fractional steps, several Intervals alive at once, Intervals obtained by subtraction with native operands",
             "Each range() is unrolled under a horizon and compared element by element with the reference sequence; containment and the in operator are checked.",
             "Bound: seeds listed in the evidence, <= 10^4 elements."),
-    "C20": ("exhaustive enumeration: time-of-day grid x amount alphabet x {add, subtract, +td, -td}; all pairs for diff/closest/farthest vs modular integer model",
+    "C20": ("exhaustive enumeration: time-of-day grid x amount alphabet x {add, subtract, +td, -td}; all pairs for diff/closest/farthest vs modular integer model; fractional amounts on both sides of the carry thresholds; the absolute difference as the timedelta it is (sign, equality, hash, addable to a Time)",
             "Every (time, amount) pair is evaluated and compared with (t + amount) mod 86400e6 us; every ordered pair of the grid goes through diff and t2 - t1.",
             "Bound: grid (thorough: all 86 400 seconds x 3 microsecond values)."),
 }
